@@ -18,7 +18,7 @@ fn note_digest(out: &mut Local, idx: u64, what: &str, ops: &[DiffOp]) {
     out.count_n("result_digest_sum_hi32", d >> 32);
 }
 
-fn seq_case(idx: u64, alg: Algorithm, a: &[u32], b: &[u32], threads: bool, out: &mut Local) {
+fn seq_case(idx: u64, alg: Algorithm, a: &[u32], b: &[u32], threads: bool, tiny: bool, out: &mut Local) {
     let ctx = || format!("alg={} old={} new={}", alg_name(alg), fmt_seq(a), fmt_seq(b));
     // reference result
     out.eval();
@@ -83,7 +83,11 @@ fn seq_case(idx: u64, alg: Algorithm, a: &[u32], b: &[u32], threads: bool, out: 
         let first = guard(|| similar::capture_diff_slices_deadline(alg, a, b, past));
         let again = guard(|| similar::capture_diff_slices_deadline(alg, a, b, past));
         let third = guard(|| similar::capture_diff_slices_deadline(alg, a, b, past));
-        let other_thread = std::thread::scope(|s| s.spawn(|| guard(|| similar::capture_diff_slices_deadline(alg, a, b, past))).join().unwrap_or_else(|_| Err("thread panicked".into())));
+        let other_thread = if tiny {
+            guard(|| similar::capture_diff_slices_deadline(alg, a, b, past))
+        } else {
+            std::thread::scope(|s| s.spawn(|| guard(|| similar::capture_diff_slices_deadline(alg, a, b, past))).join().unwrap_or_else(|_| Err("thread panicked".into())))
+        };
         match (&first, &again, &third, &other_thread) {
             (Ok(x), Ok(y), Ok(z), Ok(w)) => {
                 out.count("expired_real_deadline_repeats");
@@ -116,7 +120,8 @@ fn seq_case(idx: u64, alg: Algorithm, a: &[u32], b: &[u32], threads: bool, out: 
                 if self.0 > self.1 { Err(()) } else { Ok(()) }
             }
         }
-        let aborted = 120u64;
+        // (Miri stage: an interpreter is ~10^4 times slower; a handful of aborted diffs there)
+        let aborted = if tiny { 4u64 } else { 120 };
         for k in 0..aborted {
             let _ = guard(|| {
                 let mut h = FailAt(0, k % 7);
@@ -386,7 +391,7 @@ pub fn families() -> Vec<Box<dyn Family>> {
                     if !a.is_empty() && !b.is_empty() && a != b {
                         out.nontrivial(&(alg_name(alg), &a, &b));
                     }
-                    seq_case(idx, alg, &a, &b, idx % 8 == 0 && !cfg.tiny, out);
+                    seq_case(idx, alg, &a, &b, idx % 8 == 0 && !cfg.tiny, cfg.tiny, out);
                 }
             },
         ),
@@ -423,7 +428,7 @@ pub fn families() -> Vec<Box<dyn Family>> {
                 out.count("big_cases");
                 for alg in [Algorithm::Patience, Algorithm::Myers] {
                     out.nontrivial(&(alg_name(alg), &a, &b));
-                    seq_case(idx, alg, &a, &b, idx % 2 == 0, out);
+                    seq_case(idx, alg, &a, &b, idx % 2 == 0, cfg.tiny, out);
                 }
             },
         ),
@@ -446,7 +451,7 @@ pub fn families() -> Vec<Box<dyn Family>> {
                     if !a.is_empty() && !b.is_empty() && a != b {
                         out.nontrivial(&(alg_name(alg), &a, &b));
                     }
-                    seq_case(idx, alg, &a, &b, false, out);
+                    seq_case(idx, alg, &a, &b, false, cfg.tiny, out);
                 }
             },
         ),
